@@ -58,3 +58,22 @@ Theorem c04_kdbx3_wrong_key_is_key_error :
   take 32 p <> h3_start h ->
   decrypt3 sha256 kdf outer_dec decompress file (Ok e') = Err EIncorrectKey.
 Proof. exact frame3_wrong_start. Qed.
+
+(* KDB (format/KdbOpen.v): credentials whose derived key does not decrypt the payload to something
+   with the recorded content hash are answered with the key error *)
+From KP Require Import Kdb Key KdbOpen.
+Theorem c04_kdb_wrong_key_is_key_error :
+  forall (sha256 : bytes -> bytes) (kdf : kdfcfg -> bytes -> bytes -> Kdbx4.res bytes)
+         (outer_enc outer_dec : ocipher -> bytes -> bytes -> bytes -> Kdbx4.res bytes),
+  (forall m, length (sha256 m) = 32%nat) ->
+  forall (flags : N) (c : ocipher) (sv : N) (ms iv ts : list N) (rounds : N) (gs : list gdesc) (es : list edesc)
+         (els : list bytes) (file : bytes) (els' : list bytes) (composite' t' padded : bytes),
+  kdb_cipher_of_flags flags = Some c ->
+  length ms = 16%nat -> length iv = 16%nat -> length ts = 32%nat -> (rounds < 2 ^ 32)%N ->
+  kdb_file_enc_flags sha256 kdf outer_enc flags c sv ms iv ts rounds gs es els = Ok file ->
+  composite_kdb sha256 els' = Ok composite' ->
+  kdf (KAes rounds) ts composite' = Ok t' ->
+  outer_dec c (sha256 (ms ++ t')) iv (drop kdb_header_size file) = Ok padded ->
+  (forall payload, kdb_unpad padded = Some payload -> sha256 payload <> sha256 (payload_enc gs es)) ->
+  kdb_open sha256 kdf outer_dec file (Ok els') = Err KEIncorrectKey.
+Proof. exact kdb_file_wrong_key. Qed.
